@@ -31,7 +31,7 @@ def compile_run_all(progs, work, target="native", prefix="p"):
         rc, so, se = common.ferret(args, cwd=d, timeout=90)
         text = so + se
         crashed = rc not in (0, 1) or "goroutine " in text or "panic:" in text or "Assertion" in text
-        o = dict(accepted=(rc == 0), panic=(("exit status %s: " % rc) + text[-1800:]) if crashed else "", diag=text[-3000:],
+        o = dict(accepted=(rc == 0), panic=(("exit status %s: " % rc) + text[:1500] + " ... " + text[-400:]) if crashed else "", diag=text[-3000:],
                  exe=os.path.exists(out))
         if rc == 0 and o["exe"]:
             if target == "native":
